@@ -1,6 +1,7 @@
 (** C01 Round trip.  Only statements, each closed by [exact]; proofs live in Region/*. *)
 From FC Require Import Base.Res Index.IC Region.Region Region.Owned Region.Simple Region.Slice
-  Region.Collapse Region.Consec Region.Columns Region.History.
+  Region.Collapse Region.Consec Region.Columns Region.History Huffman.Huffman Huffman.HuffRegion
+  Model.Wire Model.Catalogue Model.CatalogueOk.
 
 (** For every region meeting the contract and every value it covers, push succeeds and the
     returned index reads back the pushed value. *)
@@ -49,3 +50,16 @@ Proof. exact (@consec_ok). Qed.
 Theorem C01_columns : forall (R : Region) (SP : RSpec R), RegionOK R ->
   forall (O : IC nat) (HO : ICOk O) (chk : bool), RegionOK (columns R O chk).
 Proof. exact (@columns_ok). Qed.
+
+(** The Huffman container meets the contract too (its own statements are C06); [dom] = every symbol
+    has a code, [mergeable] = merged code lengths within the 57 bits of the encoder register. *)
+Theorem C01_huffman : RegionOK huffman_region.
+Proof. exact huffman_ok. Qed.
+
+(** The tie to the terms the correspondence runs: EVERY region of the catalogue -- the [entry]
+    function that is extracted to OCaml and executed against the crate -- meets the contract, except
+    entry 29 (ConsecutiveIndexPairs directly over CollapseSequence: known finding D8) and entry 21
+    (CollapseSequence over f64, where IEEE == is not equality; its statement is C11). *)
+Theorem C01_catalogue : forall chk szs n e, entry chk szs n = Some e -> n <> 21%N -> n <> 29%N ->
+  exists SP : RSpec (mr e), @RegionOK (mr e) SP.
+Proof. exact catalogue_contract. Qed.
